@@ -208,6 +208,40 @@ theorem bucketQuantile_number (almost : XR → XR → Bool) (buckets : List (Buc
   · rw [hv] at hn; cases hn
   · rw [hv] at e'; cases e'; exact ⟨b1, b2⟩
 
+/-- `bucketQuantile_mono` at the tolerance the code uses (`almost.Equal(·,·,1e-12)`) -/
+theorem bucketQuantile_mono_tol (buckets : List (Bucket XR)) (hne : buckets ≠ [])
+    (C : NonnegC buckets) (hub : ∀ b ∈ buckets, b.ub = .pinf ∨ ∃ x, b.ub = .fin x)
+    (q1 q2 : Rat) (h0 : 0 ≤ q1) (h12 : q1 ≤ q2) (h1 : q2 ≤ 1) :
+    ∃ r1 r2, bucketQuantile (.fin q1) buckets = .ok r1 ∧ bucketQuantile (.fin q2) buckets = .ok r2 ∧
+      XR.leOrNaN r1.quantile r2.quantile :=
+  bucketQuantile_mono _ buckets hne C hub q1 q2 h0 h12 h1
+
+/-- monotone with a genuine `≤` between numbers (no NaN escape) under the hypotheses of `bucketQuantile_number` -/
+theorem bucketQuantile_mono_number (almost : XR → XR → Bool) (buckets : List (Bucket XR))
+    (C : NonnegC buckets) (hub : ∀ b ∈ buckets, b.ub = .pinf ∨ ∃ x, b.ub = .fin x)
+    (hinf : ∃ b ∈ buckets, b.ub = .pinf) (h2 : 2 ≤ (sortCoalesce buckets).length)
+    (hobs : cOf almost (sortCoalesce buckets) ((sortCoalesce buckets).length - 1) ≠ 0)
+    (q1 q2 : Rat) (h0 : 0 ≤ q1) (h12 : q1 ≤ q2) (h1 : q2 ≤ 1)
+    (hpos : 0 < q1 ∨ 0 < cOf almost (sortCoalesce buckets) 0) :
+    ∃ r1 r2 v1 v2, bucketQuantileWith almost (.fin q1) buckets = .ok r1 ∧ bucketQuantileWith almost (.fin q2) buckets = .ok r2 ∧
+      r1.quantile = .fin v1 ∧ r2.quantile = .fin v2 ∧ v1 ≤ v2 := by
+  have hne : buckets ≠ [] := by
+    obtain ⟨b, hb, _⟩ := hinf
+    intro e; rw [e] at hb; simp at hb
+  obtain ⟨r1, _, v1, e1, _, f1, _⟩ := bucketQuantile_number almost buckets C hub hinf h2 hobs q1 h0 (by grind) hpos
+  obtain ⟨r2, _, v2, e2, _, f2, _⟩ := bucketQuantile_number almost buckets C hub hinf h2 hobs q2 (by grind) h1
+    (by rcases hpos with h | h
+        · exact Or.inl (by grind)
+        · exact Or.inr h)
+  obtain ⟨r1', r2', e1', e2', hle⟩ := bucketQuantile_mono almost buckets hne C hub q1 q2 h0 h12 h1
+  rw [e1] at e1'; rw [e2] at e2'
+  cases e1'; cases e2'
+  refine ⟨r1, r2, v1, v2, e1, e2, f1, f2, ?_⟩
+  rw [f1, f2] at hle
+  rcases hle with h | h | h
+  · cases h
+  · cases h
+  · simpa using h
 /-- the documented NaN cases, one per remaining hypothesis of `bucketQuantile_number`: largest bound not +Inf;
     a single distinct bound; no observations -/
 theorem bucketQuantile_documented_nan_witness :
